@@ -401,6 +401,12 @@ def ref_decode(t: T, d, fam: Family, ns):
             elif required:
                 raise RefError(f"missing key {f.name}")
         return out
+    if k == "lit":
+        # one of the literal constants, of the very class (nothing is coerced: True is not 1)
+        for v in t.extra:
+            if type(d) is type(v) and d == v:
+                return v
+        raise RefError("no literal of that class and value")
     raise RefError(f"ref_decode: kind {k}")
 
 
